@@ -56,7 +56,7 @@ func RunSystemCase(cs map[string]any, id int, seed int64) Result {
 	d := &scriptedDevice{caseDev: dev, rd: rd, quote: c.Raw}
 	rng.Read(d.report[:])
 	var raw []byte
-	out := Guard(10*time.Second, func() error {
+	out := Guard(90*time.Second, func() error {
 		var err error
 		raw, err = client.GetRawQuote(d, rd)
 		return err
@@ -90,7 +90,7 @@ func RunSystemCase(cs map[string]any, id int, seed int64) Result {
 	}
 	// ---- relying party
 	var q any
-	out = Guard(10*time.Second, func() error {
+	out = Guard(90*time.Second, func() error {
 		var err error
 		q, err = abi.QuoteToProto(wire)
 		return err
@@ -112,7 +112,7 @@ func RunSystemCase(cs map[string]any, id int, seed int64) Result {
 	if str("consumer") == "eventLog" {
 		ropts.Verification = vopts
 		var st any
-		out = Guard(30*time.Second, func() error {
+		out = Guard(120*time.Second, func() error {
 			v, err := rtmr.ParseCcelWithTdQuote(s.log, s.table, msg, &ropts)
 			st = v
 			return err
@@ -126,14 +126,14 @@ func RunSystemCase(cs map[string]any, id int, seed int64) Result {
 		_ = st
 		return ret("logState", "")
 	}
-	out = Guard(30*time.Second, func() error { return verify.TdxQuote(msg, vopts) })
+	out = Guard(120*time.Second, func() error { return verify.TdxQuote(msg, vopts) })
 	if out.Verdict() != "accept" {
 		if out.Panic != "" || out.Timeout {
 			return ret("panic", out.ErrText())
 		}
 		return ret("rejected", "verify: "+out.ErrText())
 	}
-	out = Guard(30*time.Second, func() error { return validate.TdxQuote(msg, ropts.Validation) })
+	out = Guard(120*time.Second, func() error { return validate.TdxQuote(msg, ropts.Validation) })
 	if out.Verdict() != "accept" {
 		if out.Panic != "" || out.Timeout {
 			return ret("panic", out.ErrText())
